@@ -473,3 +473,54 @@ def codec_decls():
          "    }\n    Ok(())\n}\n")
     out.append(('K3', e, ['codec_generic_enum']))
     return out
+
+
+def gen_enum_item(rng, i):
+    """(source of one enum item named N<i>, ok): syntax only, for the tie of the enum part of the declaration-parser model"""
+    ok = True
+    name = f"N{i}"
+    def attrs(pool_ok, k):
+        nonlocal ok
+        out = []
+        for _ in range(k):
+            if rng.random() < 0.05: out.append(rng.choice(ATTR_ODD)); ok = False
+            else: out.append(rng.choice(pool_ok))
+        return out
+    sattrs = attrs(STRUCT_ATTR_OK, rng.choice([0, 0, 1]))
+    vis = rng.choice(['', '', 'pub ', 'pub ', 'pub ', 'pub(crate) '])
+    if vis == 'pub(crate) ': ok = False
+    params = []
+    if rng.random() < 0.3: params.append("'a")
+    tn = ['T', 'U'][:rng.choice([0, 0, 1, 2])]
+    for t in tn: params.append(t + (': ' + ' + '.join(rng.choice(BOUNDS) for _ in range(rng.choice([1, 2]))) if rng.random() < 0.5 else ''))
+    if rng.random() < 0.2: params.append('const N: usize')
+    gen = ('<' + ', '.join(params) + '>') if params else ''
+    where = ''
+    if tn and rng.random() < 0.3: where = f" where {tn[0]}: {rng.choice(BOUNDS)}" + (',' if rng.random() < 0.3 else '')
+    def ftype():
+        nonlocal ok
+        t, tok = gen_parse_type(rng, rng.choice([0, 1, 2]))
+        for _ in range(3):
+            if tok or rng.random() < 0.15: break
+            t, tok = gen_parse_type(rng, rng.choice([0, 1, 2]))
+        ok = ok and tok
+        return t
+    vs = []
+    for k in range(rng.choice([0, 1, 2, 3, 5])):
+        va = attrs(['/// doc', '#[doc = "v"]', '#[allow(dead_code)]', '#[default]', '#[difference()]'], rng.choice([0, 0, 1]))
+        c = rng.random()
+        if c < 0.35: body = ''
+        elif c < 0.65:
+            n = rng.choice([0, 1, 2, 3]); body = '(' + ', '.join(ftype() for _ in range(n)) + (',' if n and rng.random() < 0.3 else '') + ')'
+        elif c < 0.93:
+            n = rng.choice([0, 1, 2]); fields = []
+            for j in range(n):
+                fa = attrs(ATTR_OK, rng.choice([0, 0, 1]))
+                fields.append('\n'.join(fa) + ('\n' if fa else '') + f"g{j}: {ftype()}")
+            body = ' { ' + ', '.join(fields) + (',' if n and rng.random() < 0.4 else '') + ' }'
+        else:
+            body = rng.choice([' = 1', ' = 0x10']); ok = False            # explicit discriminants: "Unnamed variants are not supported"
+        vs.append('\n'.join(va) + ('\n' if va else '') + f"V{k}{body}")
+    body = ' { ' + ', '.join(vs) + (',' if vs and rng.random() < 0.5 else '') + ' }'
+    src = '\n'.join(sattrs) + ('\n' if sattrs else '') + f"{vis}enum {name}{gen}{where}{body}"
+    return src, ok
